@@ -218,7 +218,10 @@ def run_history(matcher, trace, ops, after=None):
         res, exc = None, None
         try:
             o = op["op"]
-            if o == "match":
+            if o == "pre":
+                # another trace on the same matcher object first (the object is reused between traces)
+                res = matcher.match([tuple(p) for p in op["trace"]], unique=op.get("unique", False))
+            elif o == "match":
                 res = matcher.match(trace[:op["k"]], unique=op.get("unique", False))
             elif o == "extend":
                 res = matcher.match(trace[:op["k"]], unique=op.get("unique", False), expand=True)
